@@ -563,3 +563,53 @@ Print Assumptions all_nodes_nth_error.
 Print Assumptions all_nodes_nth.
 Print Assumptions tile_E.
 Print Assumptions tile_E_base.
+
+(* ---------- selection of the cheapest percolating path over the peaks ---------- *)
+Lemma best_fold_spec : forall l b,
+  let r := fold_left best_upd l b in
+  (r = None <-> b = None /\ forall x, In x l -> x = None) /\
+  (forall c, r = Some c -> (b = Some c \/ In (Some c) l) /\ (forall c', b = Some c' \/ In (Some c') l -> c <= c')).
+Proof.
+  induction l as [|x l IH]; intros b; cbn [fold_left].
+  - split.
+    + split; [intros H; split; [exact H | intros x []] | intros [H _]; exact H].
+    + intros c Hc. split; [left; exact Hc|]. intros c' [H | []]. rewrite Hc in H. injection H as <-. lia.
+  - specialize (IH (best_upd b x)). cbv zeta in IH. destruct IH as [IHn IHs]. split.
+    + rewrite IHn. destruct x as [c|]; cbn [best_upd].
+      * split.
+        -- intros [H _]. destruct b as [bc|]; [destruct (c <? bc)|]; discriminate.
+        -- intros [_ H]. specialize (H (Some c) (or_introl eq_refl)). discriminate.
+      * split.
+        -- intros [H1 H2]. split; [exact H1|]. intros y [<- | Hy]; [reflexivity | apply H2; exact Hy].
+        -- intros [H1 H2]. split; [exact H1|]. intros y Hy. apply H2. right. exact Hy.
+    + intros r Hr. destruct (IHs r Hr) as [Hin Hmin]. destruct x as [c|]; cbn [best_upd] in *.
+      * destruct b as [bc|].
+        -- destruct (c <? bc) eqn:E.
+           ++ apply Z.ltb_lt in E. split.
+              ** destruct Hin as [H | H]; [injection H as <-; right; left; reflexivity | right; right; exact H].
+              ** intros c' [H | [H | H]].
+                 --- injection H as <-. specialize (Hmin c (or_introl eq_refl)). lia.
+                 --- injection H as <-. apply Hmin. left. reflexivity.
+                 --- apply Hmin. right. exact H.
+           ++ apply Z.ltb_ge in E. split.
+              ** destruct Hin as [H | H]; [left; exact H | right; right; exact H].
+              ** intros c' [H | [H | H]].
+                 --- apply Hmin. left. exact H.
+                 --- injection H as <-. specialize (Hmin bc (or_introl eq_refl)). lia.
+                 --- apply Hmin. right. exact H.
+        -- split.
+           ++ destruct Hin as [H | H]; [injection H as <-; right; left; reflexivity | right; right; exact H].
+           ++ intros c' [H | [H | H]]; [discriminate | injection H as <-; apply Hmin; left; reflexivity | apply Hmin; right; exact H].
+      * split.
+        -- destruct Hin as [H | H]; [left; exact H | right; right; exact H].
+        -- intros c' [H | [H | H]]; [apply Hmin; left; exact H | discriminate | apply Hmin; right; exact H].
+Qed.
+
+Theorem best_none : forall costs, best_cost costs = None <-> forall x, In x costs -> x = None.
+Proof. intros costs. unfold best_cost. destruct (best_fold_spec costs None) as [H _]. rewrite H. split; [intros [_ H']; exact H' | intros H'; split; [reflexivity | exact H']]. Qed.
+Theorem best_minimal : forall costs c, best_cost costs = Some c -> In (Some c) costs /\ forall c', In (Some c') costs -> c <= c'.
+Proof.
+  intros costs c Hc. unfold best_cost in Hc. destruct (best_fold_spec costs None) as [_ H]. destruct (H c Hc) as [Hin Hmin]. split.
+  - destruct Hin as [Hd | Hin]; [discriminate | exact Hin].
+  - intros c' Hc'. apply Hmin. right. exact Hc'.
+Qed.
